@@ -3,12 +3,14 @@ import Nsq.Model.ToFile
 import Nsq.Model.Split
 import Nsq.Model.Relay
 import Nsq.Model.ToFileTrace
+import Nsq.Model.ToNsqLoop   -- relay sub-builder (C20 round 6): to_nsq main loop
 /-! Driver for engine E8 (tools): one operation per input line, one canonical answer line out.
 
 `tf …`  nsq_to_file router model (stateful: conf / pre / events / tree)
 `sp …`  to_nsq record splitter
 `rl …`  relay handlers (nsq_to_nsq, nsq_to_http)
 `tr …`  syscall-trace checker (FIN only after fsync)
+`lp …`  to_nsq main loop (throttle / EOF / Stop) under a given schedule      [relay block]
 -/
 open Nsq Nsq.Line
 
@@ -99,6 +101,9 @@ def stepLine (d : E8.D) (line : String) : String × E8.D :=
   | "rl" :: ws => (Nsq.Model.Relay.driverLine ws, d)
   | "tr" :: ws => (Nsq.Model.ToFileTrace.driverLine ws, d)
   | "trm" :: ws => (Nsq.Model.ToFileTrace.driverLineM ws, d)
+  -- ---- relay block (C20 round 6, sub-builder `relay`): add new ops only below this line ----
+  | "lp" :: ws => (Nsq.Model.ToNsqLoop.driverLine ws, d)
+  -- ---- end of relay block ----
   | _ => ("bad-op", d)
 
 partial def loop (h : IO.FS.Stream) (out : IO.FS.Stream) (d : E8.D) : IO Unit := do
